@@ -29,3 +29,12 @@ void h_transport(void)
   }
   CANARY_POINT();
 }
+void h_transport_solver(void)
+{
+  arr_u8_32 *in_i = malloc(sizeof(arr_u8_32)), *in_r = malloc(sizeof(arr_u8_32));
+  uint32_t in_public; uint8_t in_difficulty;
+  __CPROVER_assume(in_i && in_r);
+  __g_sha_len = 0; __g_sha_seen = 0; __g_sha_finalized = 0; __g_sha_ctors = 0; __g_tpv_called = 0;
+  opt_u64 r = compute_transport_pow(in_i, in_r, in_public, in_difficulty);
+  CANARY_POINT();
+}
